@@ -181,7 +181,30 @@ def probe_splicer(events):
     M.write_output_file = write_output_file
 
 
+def probe_files(events):
+    """Every file an emitter writes (write_output_file), and the lists/flags at the end of main."""
+    from shroud import util, main
+
+    M = util.WrapperMixin
+    o_wof = M.write_output_file
+
+    def write_output_file(self, fname, directory, output, spaces="    "):
+        events.append({"e": "write_file", "cls": type(self).__name__, "fname": fname, "dir": directory})
+        return o_wof(self, fname, directory, output, spaces)
+
+    M.write_output_file = write_output_file
+    o_main = main.main_with_args
+
+    def main_with_args(args):
+        cfg = o_main(args)
+        events.append({"e": "main_end", "cfiles": list(cfg.cfiles), "ffiles": list(cfg.ffiles)})
+        return cfg
+
+    main.main_with_args = main_with_args
+
+
 PROBES = {
+    "files": probe_files,
     "linewrap": probe_linewrap,
     "splicer": probe_splicer,
 }
